@@ -5,7 +5,7 @@ handling, not the Playbook).  A state is an action history (layers are generator
 copied); `vmc.explore.bfs` explores all action sequences up to a depth with fingerprint
 de-duplication, once per configuration (UDP / TCP, with / without an upstream address):
 
-  q(id, name, addon policy, connect outcome)   client query; ids {1,2}, names {a,b}; the addon at
+  q(id, name, addon policy, connect outcome)   client query; ids {1,2}, question sections a=[a], b=[b,a]; the addon at
                  dns_request passes / sets a response / sets an error; an OpenConnection issued
                  for this query succeeds or fails
   r(id, name)    upstream reply, ids {1,2,3} x names {a,b}: matching, duplicate, for a superseded
@@ -43,23 +43,26 @@ META = {
     "distinct (stream, cut set) resp. (flags, cause, transport)",
     "assumptions": [
         "hooks and OpenConnection complete immediately: DNSLayer pauses on one blocking command at a time and buffers events meanwhile, so delayed completions process the same event sequence later",
-        "the client never re-uses an id with different flags (id 1: RD=1 opcode 0; id 2: RD=0 opcode 2); question type/class fixed to A/IN in the BFS",
+        "the client never re-uses an id with different flags (id 1: RD=1 opcode 0; id 2: RD=0 opcode 2); the BFS uses two question sections, [a] and [b, a], type/class A/IN; the SERVFAIL matrix uses 0..3 questions of mixed type/class",
         "'answers a query that client sent' is set membership over all queries sent so far on the connection (id and question section), not a one-to-one matching",
         "a dns_response flow 'carries the query it belongs to' iff flow.request exists, was sent by the client, and has the id and question section of flow.response",
         "the driver mirrors server.py: after a failed connect the server connection stays in the transport table, so a second OpenConnection trips server.py's assertion (recorded as a note, judged only through the clauses)",
     ],
 }
 
-NAMES = {"a": (b"a",), "b": (b"b",)}
+# the two question sections of the alphabet: "a" = one question (a), "b" = two questions (b, a) - legal, and the
+# statement speaks of the question *section*
+NAMES = {"a": ((b"a",),), "b": ((b"b",), (b"a",))}
 QFLAGS = {1: R.flags_word(rd=1), 2: R.flags_word(opcode=2), 3: R.flags_word(rd=1)}
 
 
 def query_bytes(ident, name, flags=None):
-    return R.simple_message(ident, QFLAGS[ident] if flags is None else flags, [(NAMES[name], 1, 1)])
+    return R.simple_message(ident, QFLAGS[ident] if flags is None else flags, [(n, 1, 1) for n in NAMES[name]])
 
 
 def reply_bytes(ident, name):
-    return R.simple_message(ident, R.flags_word(qr=1, rd=1, ra=1), [(NAMES[name], 1, 1)], [(NAMES[name], 1, 1, 60, bytes([10, 0, ident, ord(name)]))])
+    return R.simple_message(ident, R.flags_word(qr=1, rd=1, ra=1), [(n, 1, 1) for n in NAMES[name]],
+                            [(NAMES[name][0], 1, 1, 60, bytes([10, 0, ident, ord(name)]))])
 
 
 def frame(tr, b):
@@ -240,7 +243,7 @@ def client_messages(s, entries):
 
 def judge_step(s, entries, case, feats, t: Tally, badlen=False):
     case = {"bfs": case, "cfg": [s.tr, s.upstream]}
-    sent_keys = set((q[0], (NAMES[q[1]],)) for q in s.sent)
+    sent_keys = set((q[0], NAMES[q[1]]) for q in s.sent)
     error_hook = False
     for e in entries:
         if e[0] != "hook":
@@ -268,7 +271,7 @@ def judge_step(s, entries, case, feats, t: Tally, badlen=False):
         t.judge("reply_answers_a_client_query", key in sent_keys, feats, case,
                 "id + question of one of %s" % sorted(sent_keys), [m["id"], [q["name"] for q in m["qd"]]])
         if error_hook:  # a step is one client query: what goes to the client after its dns_error hook is the synthesised failure
-            cands = [q for q in s.sent if q[0] == m["id"] and (NAMES[q[1]],) == key[1]]
+            cands = [q for q in s.sent if q[0] == m["id"] and NAMES[q[1]] == key[1]]
             ok = any(q[2] == m["opcode"] and q[3] == m["rd"] for q in cands)
             t.judge("servfail_keeps_opcode_rd", ok, feats, case, [(q[2], q[3]) for q in cands], [m["opcode"], m["rd"]])
     if badlen:
@@ -373,15 +376,17 @@ def servfail_cases():
             for opcode in range(16):
                 for rd in (0, 1):
                     for rest in (0, 1):  # every other header bit of the query cleared / set
-                        yield {"servfail": [tr, cause, opcode, rd, rest]}
+                        for nq in (1, 0, 2, 3):  # questions in the query: the reply must repeat the whole section
+                            yield {"servfail": [tr, cause, opcode, rd, rest, nq]}
 
 
 def servfail_case(case, t: Tally, verbose=False):
-    tr, cause, opcode, rd, rest = case["servfail"]
+    tr, cause, opcode, rd, rest, nq = case["servfail"]
     flags = R.flags_word(opcode=opcode, rd=rd)
     if rest:
         flags |= R.flags_word(aa=1, tc=1, ra=1, z=7, rcode=15)
-    q = R.simple_message(0xBEEF, flags, [((b"x", b"y"), 28, 3)])
+    qsec = [((b"x", b"y"), 28, 3), ((b"z",), 1, 1), ((b"x", b"y"), 16, 1)][:nq]
+    q = R.simple_message(0xBEEF, flags, qsec)
     state = {}
 
     def policy(name, flow, drv):
@@ -394,7 +399,7 @@ def servfail_case(case, t: Tally, verbose=False):
     d.client_data(frame(tr, q))
     out = d.out["client"]
     msgs = out if tr == "udp" else R.tcp_frames(b"".join(out))[0]
-    feats = {"family": "servfail", "cause": cause}
+    feats = {"family": "servfail", "cause": cause, "questions": nq}
     if verbose:
         print("  query", q.hex(), "->", [m.hex() for m in msgs], d.log)
     if len(msgs) != 1 or R.try_decode(msgs[0])[0] is None:
@@ -410,7 +415,8 @@ def servfail_case(case, t: Tally, verbose=False):
         for e in d.log:
             if e[0] == "hook":
                 t.judge("reported_flow_has_its_query", e[2]["has_request"] and e[2]["request"]["id"] == 0xBEEF and
-                        e[2]["request"]["questions"] == [("x.y", 28, 3)], dict(feats, hook=e[1]), case, "flow.request = the query", e[2]["request"])
+                        e[2]["request"]["questions"] == [("x.y", 28, 3), ("z", 1, 1), ("x.y", 16, 1)][:nq], dict(feats, hook=e[1]), case,
+                        "flow.request = the query", e[2]["request"])
     t.executions += 1
     t.case(None, nontrivial=True, key=case)
     t.add("servfail_cases")
@@ -444,7 +450,8 @@ def run(ctx):
     cuts = ctx.pick(2, 3)
     ctx.bounds = {"bfs_depth": depth, "bfs_configs": ["udp+upstream", "tcp+upstream", "udp no upstream", "tcp no upstream"],
                   "ids": [1, 2, 3], "names": ["a", "b"], "addon_policies": ["pass", "set response", "set error"], "connect": ["ok", "fail"],
-                  "tcp_streams": len(streams()), "max_cuts": cuts, "servfail_matrix": "2 transports x 3 causes x 16 opcodes x RD x other-bits{0,1}"}
+                  "tcp_streams": len(streams()), "max_cuts": cuts, "question_sections": {"a": "[a]", "b": "[b, a]"},
+                  "servfail_matrix": "2 transports x 3 causes x 16 opcodes x RD x other-bits{0,1} x 0..3 questions"}
     cases = list(servfail_cases())
     for label, direction, frames, bag, has_bad in streams():
         n = sum(len(f) for f in frames)
